@@ -56,6 +56,8 @@ struct Trk
   long long v;
   Trk() : v(0) { reg::born(this); }
   Trk(int k) : v(k) { reg::born(this); }
+  struct Boom {};                                    // constructing from it throws: nothing is born
+  Trk(Boom) : v(0) { throw std::runtime_error("payload constructor"); }
   Trk(const Trk &o) : v((reg::readfrom(&o), o.v)) { reg::born(this); }
   Trk(Trk &&o) : v((reg::readfrom(&o), o.v)) { reg::born(this); o.v = -1; }
   template <int O> Trk(const Trk<O> &o) : v((reg::readfrom(&o), o.v)) { reg::born(this); }
@@ -87,6 +89,17 @@ struct VecSrc
 };
 #define VS_REL(OP) static bool operator OP(const std::vector<int> &a, const VecSrc &b) { return a OP vecOf(b.k); }
 VS_REL(==) VS_REL(!=) VS_REL(<) VS_REL(<=) VS_REL(>) VS_REL(>=)
+
+// emplace() with arguments for which the payload's constructor throws (only for payload types that have such arguments)
+template <typename T> struct ThrowingEmplace { static bool can() { return false; } template <typename O> static void run(O &) {} };
+template <> struct ThrowingEmplace<std::string> {
+  static bool can() { return true; }
+  template <typename O> static void run(O &o) { o.emplace((size_t)-1, 'x'); }   // std::length_error
+};
+template <int N> struct ThrowingEmplace<Trk<N>> {
+  static bool can() { return true; }
+  template <typename O> static void run(O &o) { o.emplace(typename Trk<N>::Boom()); }
+};
 
 struct NoEq { int v; };  // no operator== : Any::handle<NoEq>::isSame is constant false
 // operator== coarser than identity (compares the key only): "equal" payloads need not be identical, so an
@@ -333,6 +346,16 @@ struct OptHarness
     if (op == "asv") {
       if (isT(i)) { const T v = P<T>::make(j); *W(i) = v; } else { const U v = P<T>::makeU(j); *Uw(i) = v; }
       taint[i] = false; return "ok" + tail();
+    }
+    if (op == "empx") {
+      // emplace whose payload constructor throws: the wrapper must end up empty (the old payload is gone, no new one
+      // exists), with nothing constructed twice or destroyed twice
+      if (!isT(i) || !ThrowingEmplace<T>::can()) return "bad-op";
+      if (!present(i)) return "absent" + tail();
+      bool threw = false;
+      try { ThrowingEmplace<T>::run(*W(i)); } catch (const std::exception &) { threw = true; }
+      taint[i] = false;
+      return std::string(threw ? "throw" : "nothrow") + tail();
     }
     if (op == "asown") {
       // o = o.value(): operator=(U&&) with an lvalue that aliases the wrapper's own payload; the value must survive
